@@ -179,8 +179,9 @@ class C08(core.Prop):
             # 3. ordinary traffic keeps flowing, also right after a payload of any size
             for ci in sorted(shaken):
                 for di, d in enumerate(c["devices"]):
-                    if c["clients"][ci]["kind"] == "net" and not any(policy.get((ci, cn, d["name"]), "Never") in ("Never", "Also") for cn in ("ctl", "blob")):
-                        continue        # both connections are BLOB-only for this device: ordinary traffic is not expected
+                    if c["clients"][ci]["kind"] == "net" and policy.get((ci, "ctl", d["name"]), "Never") not in ("Never", "Also"):
+                        continue        # the client made its control connection BLOB-only for this device; from the BLOB connection
+                                        # the client library takes BLOB updates only: ordinary traffic is not expected
                     want = {vn: x for vn, x in sysgen.visible(d, st["drivers"][di]).items() if x[0] != "BLOB"}
                     got = {vn: x for vn, x in sysgen.client_visible(st["clients"][ci], d["name"]).items() if x[0] != "BLOB"}
                     df = sysgen.diff_views(want, got)
